@@ -208,8 +208,8 @@ func TestC03_Enum(t *testing.T) {
 		t.Skip()
 	}
 	sh, shards := shard()
-	maxFull := envInt("VERIF_C03_FULL", 3)    // lengths enumerated completely by every run
-	sliceLen := envInt("VERIF_C03_SLICE", 4)  // one more length, of which this run takes a slice
+	maxFull := envInt("VERIF_C03_FULL", 3)     // lengths enumerated completely by every run
+	sliceLen := envInt("VERIF_C03_SLICE", 4)   // one more length, of which this run takes a slice
 	sliceParts := envInt("VERIF_C03_PARTS", 8) // the slice is 1/sliceParts of that length (chosen by seed)
 	seed := envInt("VERIF_SEED", 1)
 	check := func(s string) {
